@@ -5720,15 +5720,17 @@ func (a *Agent) handleQueuedState(peerID identity.AgentID, frame *protocol.Frame
 		a.flooder.HandleNodeInfoAdvertise(peerID, nodeInfo.OriginAgent, nodeInfo.Sequence, nodeInfo.EncInfo, nodeInfo.SeenBy)
 	}
 
-	// Check for sleep/wake commands in queued state
-	if state.SleepCmd != nil && a.sleepMgr != nil {
+	// Check for sleep/wake commands in queued state. They are untrusted wire
+	// input like flooded commands, so they go through the flooder's handlers
+	// (signature and timestamp verification, deduplication) before acting.
+	if state.SleepCmd != nil && a.sleepMgr != nil && a.flooder.HandleSleepCommand(peerID, state.SleepCmd) {
 		a.logger.Info("entering sleep mode from queued command")
 		if err := a.sleepMgr.Sleep(); err != nil {
 			a.logger.Error("failed to enter sleep mode from queued command",
 				logging.KeyError, err)
 		}
 	}
-	if state.WakeCmd != nil && a.sleepMgr != nil {
+	if state.WakeCmd != nil && a.sleepMgr != nil && a.flooder.HandleWakeCommand(peerID, state.WakeCmd) {
 		a.logger.Info("waking from queued command")
 		if err := a.sleepMgr.Wake(); err != nil {
 			a.logger.Error("failed to wake from queued command",
